@@ -146,6 +146,22 @@ def iterate_ds(ds, r):
                 break
     r["_opened"] = opened
 
+    if iface == "paths":
+        # the selection itself: indices (in depth-first order) of the shard files shard_paths_dataset returns
+        info = json.loads((ds.path / "dataset_info.json").read_text())
+        allp = []
+
+        def walk(rel):
+            d = json.loads((ds.path / rel).read_text())
+            for sh in d.get("shard_files", []):
+                allp.append(str(ds.path / sh["file_infos"][0]["file_path"]))
+            for ch in d.get("children_shard_lists", []):
+                walk(ch["shard_list_info_file"]["file_path"])
+        walk(info["splits"][split]["shard_list_info_file"]["file_path"])
+        kw2 = {k: v for k, v in kw.items() if k in ("split", "shards", "shard_filter")}
+        if r.get("limit") is not None:
+            kw2["custom_metadata_type_limit"] = r["limit"]
+        return [allp.index(p) for p in ds.shard_paths_dataset(**kw2)]
     if iface == "sync":
         if r.get("limit") is not None:
             kw["custom_metadata_type_limit"] = r["limit"]
